@@ -28,7 +28,7 @@ def run(res, only=None):
     icfgs = [x for x in cfgs if x in ("sse2", "sse2-rel")] or cfgs[:1]
     core.replay_bin(res, "int", d, icfgs, tag="icmp", env_extra={"HX_PROP": "C15", "HX_KINDS": "b:cmp"})
     # (4) code -> spec: random histories (16 steps per draw and mask type) of the same machine, judged event by event by Trace_C15.tla
-    core.record_and_validate(res, "mask", cfgs, draws=4 if res.tier == "quick" else 100, module="Trace_C15", chunks=1, expect_kinds=("mask",))
+    core.record_and_validate(res, "mask", cfgs, draws=12 if res.tier == "quick" else 300, module="Trace_C15", chunks=1, expect_kinds=("mask",))
     res.exhaustive = True
     res.rule = ("mask machine: every two-step behaviour over {5 constructors x all 2^N masks, !, &,|,^ (+assign) x all 2^N operands, "
                 "set(i,v), test/set with invalid indices} for N=2,3,4, with the full observation after every step (bitmask, any, all, "
